@@ -3,5 +3,6 @@ CONSTANTS
   ResetOnSkip = TRUE
   MaxLen = 4
   Alpha <- AlphaThorough
+  Sweep = TRUE
   Export = TRUE
 INVARIANTS PropsOK TicksAsDocumented RunningIsDirect ExportInv
